@@ -701,6 +701,10 @@ class Monitors:
             full = gs[-1].hist
             if any(abs(c.distance - d) <= BAND * d for c in full):
                 ctx.count('undecided:getitem_at_chopper_distance')
+                if ev.exc is not None:
+                    ctx.event('getitem')
+                    ctx.violation('getitem_raised', f'sequence[distance] at a chopper position raised '
+                                  f'{type(ev.exc).__name__}: {ev.exc}', {'distance': d}, exc=type(ev.exc).__name__)
                 return
             hist = tuple(c for c in full if c.distance <= d)
             case = _describe(gs[0].pulse, hist, d)
@@ -1057,6 +1061,15 @@ def run_cascade(cc, mon, ctx, rng, forced):
             while any(abs(q - d) < 0.01 for d in ds):
                 q += 0.013
             seq_c[_dist_var(rng, q)]
+        # exact frame distances: the source itself and a chopper position (values there are undecided for
+        # the neutrons that only this chopper blocks, but the lookup must work)
+        try:
+            seq_c[sc.scalar(0.0, unit='m')]
+            seq_c[seq_c.frames[1].distance.copy()]
+            seq_c[seq_c.frames[-1].distance.copy()]
+            ctx.hit('getitem at an exact frame distance')
+        except Exception:  # noqa: BLE001  judged by the monitor
+            pass
     else:
         seq_c = seq0.propagate_to(_dist_var(rng, pick_forward(1.0), 'm'))
         seq_c[sc.scalar(0.5, unit='m')]
